@@ -4,6 +4,7 @@ package c08
 
 import (
 	"context"
+	crand "crypto/rand"
 	"encoding/json"
 	"net"
 	"testing"
@@ -13,6 +14,7 @@ import (
 	"github.com/enfein/mieru/v3/pkg/appctl/appctlpb"
 	"github.com/enfein/mieru/v3/pkg/common"
 	"github.com/enfein/mieru/v3/pkg/protocol"
+	"github.com/enfein/mieru/v3/pkg/protocol/serveruser"
 	"google.golang.org/protobuf/proto"
 
 	"verifharness/refcodec"
@@ -158,5 +160,47 @@ func TestClockPairs(t *testing.T) {
 			rec["real"] = serverAccepts(t, p.Tc+p.D, dg)
 		}
 		out.Emit(rec)
+	})
+}
+
+// TestDecryptorHistory: ONE server-side user registry (its per-user decryptor caches the key triple of a slot) answers a whole history of
+// first segments while the server's clock is moved forwards and BACKWARDS between them (each step runs in its own bubble whose clock is
+// set to the server time of that step; the registry object is shared).  The segments come from the reference codec at client time tc.
+func TestDecryptorHistory(t *testing.T) {
+	out := vt.MustCreate(t, "VERIF_OUT")
+	defer out.Close()
+	hashed := refcodec.HashedPassword(user, pass)
+	n := 0
+	vt.ReadLines(t, "VERIF_IN", func(line []byte) {
+		var hist []pair
+		if err := json.Unmarshal(line, &hist); err != nil {
+			t.Fatalf("bad history: %v", err)
+		}
+		n++
+		reg := &serveruser.Registry{}
+		reg.SetUsers(map[string]*appctlpb.User{user: {Name: proto.String(user), Password: proto.String(pass)}})
+		for k, p := range hist {
+			accepted := false
+			synctest.Test(t, func(t *testing.T) {
+				time.Sleep(time.Duration(p.Tc+p.D) * time.Second)
+				ct := int64(epoch + p.Tc)
+				nonce := make([]byte, 24)
+				crand.Read(nonce)
+				refcodec.ApplyHint(user, nonce)
+				m := refcodec.Meta{Type: refcodec.T("openSessionRequest"), Timestamp: uint32(ct / 60), SID: uint32(1000 + k), Seq: 0}
+				seg := refcodec.SealMeta(refcodec.KeyAt(hashed, ct), nonce, m)
+				src := serveruser.SourceFromAddr(&net.UDPAddr{IP: net.IPv4(10, 2, byte(n), byte(k)), Port: 4000})
+				block, plain, _, err := reg.Discover(seg, src, true)
+				if err == nil && block != nil {
+					// the key opened it; the timestamp is judged where the metadata is parsed
+					if pm, perr := refcodec.ParseMeta(plain); perr == nil {
+						diff := int64(pm.Timestamp) - time.Now().Unix()/60
+						accepted = diff >= -1 && diff <= 1
+					}
+				}
+			})
+			out.Emit(map[string]any{"ev": "hist", "tc": p.Tc, "d": p.D, "warm": 0, "key": p.Key, "stamp": p.St, "accept": p.Acc,
+				"produced": true, "keyslot": 1, "stampdiff": 0, "real": accepted, "h": n, "k": k})
+		}
 	})
 }
